@@ -353,11 +353,64 @@ def graph_jobs(repo):
         dict(file=IMRS, hdr=r"pub\(crate\) fn set_at_least_if_in_both\(\s*&mut self,\s*position_a: Option<CoordPos>,\s*position_b: Option<CoordPos>,\s*minimum_dimensions: Dimensions,\s*\) \{",
              name="imSetAtLeastIfInBoth", params="(self_ : IM) (position_a position_b : Option Pos) (minimum_dimensions : Dim)", ret="IM",
              paths=IM_PATHS, pro=pro, opts=im),
+    ] + label_jobs()
+
+
+LABEL = "geo/src/algorithm/relate/geomgraph/label.rs"
+
+
+def label_jobs():
+    L = "GG.Label"
+    # `geometry_topologies: [TopologyPosition; 2]` is the pair of fields (a, b) of the model's `Label`; `P[i]` reads / writes
+    # through `Label.get` / `Label.set` (index 0 = a, any other index = b: the array has two elements, an index > 1 would
+    # panic); `slice::swap(i, j)` = the two writes of the exchanged elements
+    def ix(var, place):
+        return {place: {"var": var, "get": "(GG.Label.get {0} {1})", "set": "(GG.Label.set {0} {1} {2})",
+                        "methods": {"swap": "(GG.Label.set (GG.Label.set {0} {1} (GG.Label.get {0} {2})) {2} (GG.Label.get {0} {1}))"}}}
+    tp_methods = {"flip": "tpFlip", "set_position": "tpSetPosition", "set_all_positions": "tpSetAllPositions",
+                  "set_all_positions_if_empty": "tpSetAllPositionsIfEmpty"}
+    mutating = {"muts": [("self_", L)], "ret_ctor": "id", "places": {"self.geometry_topologies": "self_gt"}, "index1": ix("self_", "self_gt"),
+                "mut_methods": tp_methods}
+    reading = {"places": {"self.geometry_topologies": "self_gt"}, "index1": ix("self_", "self_gt"),
+               "accessors": {"is_empty": "(tpIsEmpty {})", "is_any_empty": "(tpIsAnyEmpty {})", "is_area": "(tpIsArea {})", "is_line": "(tpIsLine {})",
+                             "iter": [(r"^self_gt$", "[self_.a, self_.b]")], "count": "{}.length"}}
+    label_struct = {"Label": ("(fun (p : GG.TopoPos × GG.TopoPos) => GG.Label.mk p.1 p.2)", ["geometry_topologies"]),
+                    "Self": ("(fun (p : GG.TopoPos × GG.TopoPos) => GG.Label.mk p.1 p.2)", ["geometry_topologies"])}
+    paths = dict(TP_PATHS, **{"TopologyPosition::empty_line_or_point": "tpEmptyLineOrPoint", "TopologyPosition::empty_area": "tpEmptyArea",
+                              "Self::empty_line_or_point": "labelEmptyLineOrPoint", "Self::empty_area": "labelEmptyArea"})
+    def setter(fn, params, lean_params, name):
+        return dict(file=LABEL, hdr=r"pub fn %s\(&mut self%s\) \{" % (fn, params), name=name, params="(self_ : GG.Label)" + lean_params, ret=L,
+                    paths=paths, opts=mutating)
+    def getter(fn, params, lean_params, ret, name, funcs=None):
+        return dict(file=LABEL, hdr=r"pub fn %s\(&self%s\) -> %s \{" % (fn, params, {"Bool": "bool", "Nat": "usize", "Option Pos": "Option<CoordPos>"}[ret]),
+                    name=name, params="(self_ : GG.Label)" + lean_params, ret=ret, paths=paths, funcs=funcs or {}, opts=reading)
+    gi = ", geom_index: usize"
+    return [
+        setter("swap_args", "", "", "labelSwapArgs"),
+        dict(file=LABEL, hdr=r"pub fn empty_line_or_point\(\) -> Label \{", name="labelEmptyLineOrPoint", params="", ret=L, paths=paths, structs=label_struct),
+        dict(file=LABEL, hdr=r"pub fn empty_area\(\) -> Self \{", name="labelEmptyArea", params="", ret=L, paths=paths, structs=label_struct),
+        dict(file=LABEL, hdr=r"pub fn new\(geom_index: usize, position: TopologyPosition\) -> Self \{", name="labelNew",
+             params="(geom_index : Nat) (position : GG.TopoPos)", ret=L, paths=paths,
+             opts={"mut_types": {"label": L}, "places": {"label.geometry_topologies": "label_gt"}, "index1": ix("label", "label_gt"),
+                   "variants": {"TopologyPosition::Area": TP_VARIANTS["Self::Area"], "TopologyPosition::LineOrPoint": TP_VARIANTS["Self::LineOrPoint"]}}),
+        setter("flip", "", "", "labelFlip"),
+        getter("position", gi + ", direction: Direction", " (geom_index : Nat) (direction : Direction)", "Option Pos", "labelPosition", {".get": "(tpGet {0} {1})"}),
+        getter("on_position", gi, " (geom_index : Nat)", "Option Pos", "labelOnPosition", {".get": "(tpGet {0} {1})"}),
+        setter("set_position", gi + ", direction: Direction, position: CoordPos", " (geom_index : Nat) (direction : Direction) (position : Pos)", "labelSetPosition"),
+        setter("set_on_position", gi + ", position: CoordPos", " (geom_index : Nat) (position : Pos)", "labelSetOnPosition"),
+        setter("set_all_positions", gi + ", position: CoordPos", " (geom_index : Nat) (position : Pos)", "labelSetAllPositions"),
+        setter("set_all_positions_if_empty", gi + ", position: CoordPos", " (geom_index : Nat) (position : Pos)", "labelSetAllPositionsIfEmpty"),
+        getter("geometry_count", "", "", "Nat", "labelGeometryCount", {".filter": "(List.filter {1} {0})"}),
+        getter("is_empty", gi, " (geom_index : Nat)", "Bool", "labelIsEmpty"),
+        getter("is_any_empty", gi, " (geom_index : Nat)", "Bool", "labelIsAnyEmpty"),
+        getter("is_area", "", "", "Bool", "labelIsArea"),
+        getter("is_geom_area", gi, " (geom_index : Nat)", "Bool", "labelIsGeomArea"),
+        getter("is_line", gi, " (geom_index : Nat)", "Bool", "labelIsLine"),
     ]
 
 
 def graph_functions(repo, outdir, write):
-    hdr = ["/- generated by translator/rs2lean.py (jobs2, statement fragment) from %s and %s; do not edit -/" % (TPOS, IMRS),
+    hdr = ["/- generated by translator/rs2lean.py (jobs2, statement fragment) from %s, %s and geomgraph/label.rs; do not edit -/" % (TPOS, IMRS),
            "import GeoModel.GeomGraph", "import GeoModel.RelateImpl", "import GeoModel.TRANPrelude", "",
            "namespace Geo.Gen", "open Geo", "set_option linter.unusedVariables false", ""]
     return emit(repo, outdir, "GraphGen.lean", hdr, graph_jobs(repo), write)
